@@ -308,6 +308,56 @@ def shard_multi(prop: str, tier: str, seed: int, n: int) -> dict[str, Any]:
     return c.export()
 
 
+def shard_loop_gate(prop: str, tier: str, seed: int, n: int) -> dict[str, Any]:
+    """A gate inside a jump loop (and one re-armed by an operator restart): every activation of the gate suspends and needs a
+    signal of its own - the signal that released the previous activation must not release the next one."""
+    from vlib.engine_d import inj_restart
+
+    c = Campaign(prop, tier, seed, LEVEL)
+    loop = {"name": "gate-in-loop", "stages": [stage("a", [], [ok()]), stage("g", ["a"], [{"b": "suspend", "emit": []}]),
+                                               stage("r", ["g"], [{"b": "jump", "to": "a", "j": 1, "emit": []}]), stage("z", ["r"], [ok()])]}
+    chain = {"name": "gate-restart", "stages": [stage("a", [], [ok()]), stage("g", ["a"], [{"b": "suspend", "emit": []}]), stage("z", ["g"], [ok()])]}
+
+    def one(kind: str, sd: dict[str, Any]) -> None:
+        spec = loop if kind == "loop" else chain
+        tasks.reset_ledger()
+        run = Run(spec, make_schedule(sd))
+        run.drain()
+        inj_signal("g", "go1", {"n": 1}, True)(run)
+        run.drain()
+        if kind == "restart":
+            inj_restart("g")(run)
+            run.drain()
+        mid = run.outcome()
+        case = {"kind": "loop-gate", "variant": kind, "schedule": sd, "spec": spec}
+        # second activation of the gate: it must be waiting for a signal of its own
+        if mid["stages"].get("g") != "SUSPENDED" or mid["workflow"] in oracles.COMPLETE:
+            c.violation(f"old-signal-released-next-activation|{kind}", case,
+                        f"after one signal and the re-arm of the gate: gate {mid['stages'].get('g')}, workflow {mid['workflow']}, gate executed {mid['counts'].get('g.t0', 0)}x "
+                        "(the second activation did not wait for a signal of its own)")
+        else:
+            inj_signal("g", "go2", {"n": 2}, True)(run)
+            run.drain()
+            got = run.outcome()
+            seen = [e["seen"].get("_signal_name") for e in tasks.ledger_snapshot() if e["stage"] == "g"]
+            if got["workflow"] != "SUCCEEDED" or got["counts"].get("g.t0", 0) != 4 or seen[-1] != "go2":
+                c.violation(f"second-activation-not-released|{kind}", case, f"workflow {got['workflow']}, gate executed {got['counts'].get('g.t0', 0)}x, signals seen {seen}")
+        c.case(("c18lg", kind, sd), True, ["gate-reactivated", f"gate-reactivated:{kind}"])
+
+    for kind in ("loop", "restart"):
+        one(kind, {"style": "fifo", "d": [], "R": 2})
+
+    @hseed(seed)
+    @settings(max_examples=n, database=None, deadline=None, derandomize=False, suppress_health_check=list(HealthCheck),
+              phases=[Phase.generate], report_multiple_bugs=False)
+    @given(st.sampled_from(["loop", "restart"]), schedule_desc(max_len=40))
+    def t(kind, sd):
+        one(kind, sd)
+
+    t()
+    return c.export()
+
+
 def shard_race(prop: str, tier: str, seed: int, name: str, P: int) -> dict[str, Any]:
     """SignalStage handled concurrently with the RunTask result that suspends the gate (statement-level interleaving)."""
     from checks import c07
@@ -339,6 +389,7 @@ def run(c: Campaign, jobs: int) -> None:
     shards = max(1, jobs)
     args += [(shard_random, (c.prop, c.tier, c.seed * 1000 + k, max(1, n // shards))) for k in range(shards)]
     args += [(shard_multi, (c.prop, c.tier, c.seed * 1000 + 700 + k, max(1, (n // 2) // shards))) for k in range(shards)]
+    args += [(shard_loop_gate, (c.prop, c.tier, c.seed * 1000 + 900 + k, 10 if quick else 300)) for k in range(2)]
     for name in gate_specs():
         args.append((shard_crash, (c.prop, c.tier, c.seed, name, True)))
         args.append((shard_crash, (c.prop, c.tier, c.seed, name, False)))
@@ -356,7 +407,7 @@ def run(c: Campaign, jobs: int) -> None:
         "one signal per gate, except the two-signal shard (a gate suspending twice, two persistent signals, identical or not); SQLite only",
     ]
     for cls in ("persistent:NOT_STARTED", "persistent:RUNNING", "persistent:SUSPENDED", "transient:SUSPENDED", "transient:RUNNING", "crash", "unsignalled", "signal-race",
-                "signal-after-restart", "two-signals:identical"):
+                "signal-after-restart", "two-signals:identical", "gate-reactivated"):
         if c.classes.get(cls, 0) == 0:
             c.harness_error(f"generator starvation: class {cls} never produced")
 
